@@ -119,4 +119,10 @@ var mslKnownDefects = mslDefects{
 	// declared "device type_2 const& es" and then passed to "device E& p": a reference to
 	// non-const cannot bind to a const object (C++14 [dcl.init.ref]/5).
 	"references into storage and workgroup memory": {"*": `"es" is read-only`},
+	// M9: a swizzle of a binary expression loses its parentheses: WGSL "(p + q).yx" is
+	// written "p + q.yx" (the swizzle binds to q only: C++14 [expr.post] before [expr.add]);
+	// with a widening swizzle "(p * q).xxyy" becomes "p * q.xxyy", float2 * float4, which
+	// does not compile.
+	"swizzle of a binary expression, same size": {"*": "mismatch: buffer [0 0] word 0"},
+	"swizzle of a binary expression, widening":  {"*": "operator * cannot be applied to float2 and float4"},
 }
